@@ -199,6 +199,9 @@ impl Fam for Copyf {
 fn raw_key(class: u32) -> String {
     if class == 1 {
         String::new()
+    } else if class % 4 == 2 {
+        // a rendering well beyond 64 bytes (buffering / chunking thresholds of formatting code)
+        format!("key-{:04}{}", class, "-x".repeat(40))
     } else {
         format!("key-{:04}", class)
     }
@@ -212,7 +215,7 @@ impl KeyF for String {
         if self.is_empty() {
             1
         } else {
-            self.get(4..).and_then(|s| s.parse().ok()).unwrap_or(u32::MAX)
+            self.get(4..8).and_then(|s| s.parse().ok()).unwrap_or(u32::MAX)
         }
     }
     fn tag(&self) -> u32 {
@@ -222,7 +225,7 @@ impl KeyF for String {
         0
     }
     fn chk(&self, _: &'static str) -> bool {
-        self.len() == 8 || self.is_empty()
+        self.len() == 8 || self.len() == 88 || self.is_empty()
     }
     fn with_q<R>(class: u32, f: impl FnOnce(&str) -> R) -> R {
         let s = raw_key(class);
